@@ -632,11 +632,11 @@ Proof.
   unfold import.
   assert (H : forall g0, exists g1,
             fold_left (fun acc n => do g <- acc; let '(name, meta, bs) := n in
-                                    build_note g (key_from_file_name name) meta bs) notes (Ok g0) = Ok g1).
+                                    build_note g (key_name name) meta bs) notes (Ok g0) = Ok g1).
   { induction notes as [|[[name meta] bs] l IH]; intros g0; cbn [fold_left].
     - eexists. reflexivity.
     - cbn [bind]. unfold build_note at 2.
-      destruct (build_document_total (gr_arena g0) (key_from_file_name name) bs) as (st & H & _).
+      destruct (build_document_total (gr_arena g0) (key_name name) bs) as (st & H & _).
       rewrite H. cbn [bind]. apply IH. }
   destruct (H empty_graph) as (g1 & H1). rewrite H1. cbn [bind]. eexists. reflexivity.
 Qed.
